@@ -414,6 +414,42 @@ def desugar_inline_format(text, locator):
     return "".join(out)
 
 
+METHODS_RE = re.compile(r"^[ \t]*//@@[ \t]*methods-except[ \t]*:[ \t]*(\S+)[ \t]*::[ \t]*(.*?)[ \t]*::[ \t]*(.*?)[ \t]*$", re.M)
+
+
+def expand_methods(text, root, record):
+    """//@@ methods-except: <relpath> :: <impl locator> :: name1, name2, ...
+    is replaced by the verbatim text of EVERY fn item of that impl block except the named ones -- so that a helper method
+    added to the impl later (and called from an extracted arm) is compiled in the contract scope too, against the same
+    ghost fields, instead of losing the anchor."""
+
+    def repl(m):
+        rel, locator, names = m.group(1), m.group(2), [x.strip() for x in m.group(3).split(",") if x.strip()]
+        item = extract_item(rel, locator, root)
+        mask = strip_comments_mask(item)
+        b0 = mask.find("{")
+        b1 = match_brace(mask, b0)
+        out = []
+        depth = 0
+        i = b0 + 1
+        for mm in re.finditer(r"\bfn\s+([A-Za-z0-9_]+)\b", mask[b0 + 1:b1]):
+            pos = b0 + 1 + mm.start()
+            # only fns at depth 1 of the impl block
+            d = mask[b0 + 1:pos].count("{") - mask[b0 + 1:pos].count("}")
+            if d != 0 or mm.group(1) in names:
+                continue
+            k = mask.find("{", pos)
+            e = match_brace(mask, k)
+            ls = item.rfind("\n", 0, pos) + 1
+            txt = item[ls:e + 1]
+            record.append({"source": ("src/" + rel) if not rel.startswith("src/") else rel, "item": locator + " / fn " + mm.group(1),
+                           "sha256_of_source_span": sha256(txt), "renamed_to": None, "substitutions": ["helper method of the impl, copied verbatim (methods-except)"]})
+            out.append(txt)
+        return "\n".join(out)
+
+    return METHODS_RE.sub(repl, text)
+
+
 BODY_RE = re.compile(r"^[ \t]*//@@[ \t]*body[ \t]*:[ \t]*(\S+)[ \t]*::[ \t]*(.*?)[ \t]*=>[ \t]*(\w+)[ \t]*(.*)$", re.M)
 
 
@@ -587,6 +623,7 @@ def expand_bodies(text, root, record):
         return prefix + new
 
     text = expand_items(text, root, record)
+    text = expand_methods(text, root, record)
     text = expand_closures(text, root, record)
     text = expand_loopsteps(text, root, record)
     text = re.sub(r"^[ \t]*//@@stubs-tables[ \t]*$", TABLE_STUBS, text, flags=re.M)
